@@ -134,7 +134,8 @@ def table(env, row):
     elif row == 'solvers_orientation':
         Sv = R.solver
         _reject(env, 'QGMRES(non-square A)', lambda a, b: Sv.QGMRESSolver().solve(a, b), [q23(), env.qarr('b', (2, 1))])
-        _reject(env, 'QGMRES(non-square A, left_lu)', lambda a, b: Sv.QGMRESSolver(preconditioner='left_lu').solve(a, b), [q32('a2'), env.qarr('b2', (3, 1))])
+        _reject(env, 'QGMRES(non-square A, left_lu)', lambda a, b: Sv.QGMRESSolver(preconditioner='left_lu').solve(a, b),
+                [env.qarr('a2', (2, 1), 'real'), env.qarr('b2', (2, 1), 'real')])
         _reject(env, 'RSP column variant(wide)', Sv.RandomizedSketchProjectPseudoinverse(max_iter=1).compute_column_variant, [q23('c')])
         _reject(env, 'RSP row variant(tall)', Sv.RandomizedSketchProjectPseudoinverse(max_iter=1).compute_row_variant, [q32('d')])
         _reject(env, 'Hybrid(wide)', Sv.HybridRSPNewtonSchulz(max_iter=1).compute, [q23('e')])
